@@ -162,12 +162,28 @@ def run(tier, replay=None):
         # the image the instructions are fetched from is the file's image: hexsim's loader against BinFormat!Loaded
         import binlib
         nload = binlib.loader_conformance(chk, d)
-        chk.set("traces_validated_against_impl", nsteps + nruns + nload)
+        # the longest program at hand: the X compiler written in X (tests/x/xhexb.x, compiled by xcmp) compiling a source on hexsim -
+        # millions of instructions, cut into segments that sixteen TLC processes judge against HexISA independently
+        import seglib, corpus
+        xb = os.path.join(d, "xhexb.bin")
+        vlib.sh([os.path.join(corpus.tools(), "xcmp"), os.path.join(vlib.REPO, "tests/x/xhexb.x"), "-o", xb], check=True, timeout=300)
+        boots = [("boot-skip", b"proc main() is skip\n", 80000)]
+        if tier != "quick":
+            boots.append(("boot-hello", open(os.path.join(vlib.REPO, "tests/x/hello_prints.x"), "rb").read(), 250000))
+        bsteps = 0; bsegs = 0
+        for tag, src, K in boots:
+            oks, st, end = seglib.run(chk, d, xb, src, K, tag)
+            bsteps += st; bsegs += oks
+            chk.cov.setdefault("bootstrap_runs", {})[tag] = {"instructions": end['steps'], "segments_ok": oks, "bytes_written": sum(len(h) // 2 for _, h in end['files'])}
+        chk.add("states", bsteps); chk.add("transitions", bsteps)
+        chk.vacuity(bsteps < 1000000, "bootstrap run too short (%d instructions)" % bsteps)
+        chk.set("traces_validated_against_impl", nsteps + nruns + nload + bsegs)
         chk.set("distinct_nontrivial", nsteps + nruns + nload)
         chk.set("evaluations", chk.cov["step_records"] + chk.cov["runs_validated"] + nload)
         chk.set("rule", "single steps: 256 instruction bytes x seeded corner/random register, pc-lane and memory states plus the "
                         "system-call grid (distinct by construction of the seeded grid; non-trivial = HexISA defines the step); "
-                        "runs: seeded random instruction-level programs and the repository's asm/X programs; loader: every file of BinFormat!Files "
+                        "runs: seeded random instruction-level programs and the repository's asm/X programs, and the xhexb compiler compiling a source (1.3M instructions; "
+                        "thorough: 13M) in independently judged segments; loader: every file of BinFormat!Files "
                         "(complete files with and without debug tables, files cut at every length inside the image)")
         chk.assumptions += ["HexISA.tla is a faithful transcription of hexb.pdf pp.4-10",
                             "the recorder's native address filter is used only to avoid out-of-array accesses; TLC confirms every refused step is undefined",
